@@ -234,6 +234,31 @@ func vkSeedWorld(w *vkSrvWorld) {
 		}
 		return m
 	}
+	// a handler below the edns handler PANICS: the recovery middleware (first in the chain) answers SERVFAIL
+	sc["boom.t."] = func(req *dns.Msg) *dns.Msg { panic("vk: scripted handler panic for boom.t.") }
+	// a broken/hostile upstream puts an OPT record (its own cookie, size 4096) into the AUTHORITY / ANSWER section
+	vkStrayOPT := func() dns.RR {
+		o := &dns.OPT{Hdr: dns.RR_Header{Name: ".", Rrtype: dns.TypeOPT}}
+		o.SetUDPSize(4096)
+		o.Option = append(o.Option, &dns.EDNS0_COOKIE{Code: dns.EDNS0COOKIE, Cookie: "aaaaaaaaaaaaaaaabbbbbbbbbbbbbbbb"})
+		return o
+	}
+	sc["optns.t."] = func(req *dns.Msg) *dns.Msg {
+		m := vkReplyTo(req)
+		if req.Question[0].Qtype == dns.TypeA {
+			m.Answer = []dns.RR{&dns.A{Hdr: dns.RR_Header{Name: "optns.t.", Rrtype: dns.TypeA, Class: dns.ClassINET, Ttl: 300}, A: netip.MustParseAddr("192.0.2.41").AsSlice()}}
+		}
+		m.Ns = append(m.Ns, vkStrayOPT())
+		return m
+	}
+	sc["optan.t."] = func(req *dns.Msg) *dns.Msg {
+		m := vkReplyTo(req)
+		if req.Question[0].Qtype == dns.TypeA {
+			m.Answer = []dns.RR{&dns.A{Hdr: dns.RR_Header{Name: "optan.t.", Rrtype: dns.TypeA, Class: dns.ClassINET, Ttl: 300}, A: netip.MustParseAddr("192.0.2.42").AsSlice()}}
+		}
+		m.Answer = append(m.Answer, vkStrayOPT())
+		return m
+	}
 	sc["sf.t."] = func(req *dns.Msg) *dns.Msg {
 		m := vkReplyTo(req)
 		m.Rcode = dns.RcodeServerFailure
@@ -257,7 +282,7 @@ func vkSeedWorld(w *vkSrvWorld) {
 	w.serve(vkPathDecoded, "tcp", client, p.build())
 }
 
-var vkSrvTargets = []string{"hit.t.", "cn.t.", "cnx.t.", "cnns.t.", "cnad.t.", "tgt.t.", "cnsig.t.", "cnu.t.", "sig.t.", "nx.t.", "x.nx.t.", "keep.nx.t.", "nxa.t.", "nd.t.", "ede.t.", "big.t.", "mid.t.", "xtra.t.", "optup.t.", "opt2up.t.", "sf.t.", "ref.t.", "miss.t.", "hosts.t.", "1.10.in-addr.arpa.", "."}
+var vkSrvTargets = []string{"hit.t.", "cn.t.", "cnx.t.", "cnns.t.", "cnad.t.", "tgt.t.", "cnsig.t.", "cnu.t.", "sig.t.", "nx.t.", "x.nx.t.", "keep.nx.t.", "nxa.t.", "nd.t.", "ede.t.", "big.t.", "mid.t.", "xtra.t.", "optup.t.", "opt2up.t.", "sf.t.", "ref.t.", "miss.t.", "hosts.t.", "1.10.in-addr.arpa.", ".", "boom.t.", "optns.t.", "optan.t."}
 
 func vkSrvConfigs(thorough bool) []vkSrvCfg {
 	cfgs := []vkSrvCfg{
